@@ -41,7 +41,7 @@ def b01 (b : Bool) : String := if b then "1" else "0"
 def vsemRow (tl : TL) (ports : List String) (stmts : List Stmt) (row : String) : String :=
   let a := bitsRow row
   let tab := vEval tl ports stmts false (!·) prim2 a
-  let caps := (vCaptures tl ports stmts (vEnvOf false tab)).map fun o => match o with
+  let caps := (vCaptures tl ports stmts false prim2 (vEnvOf false tab)).map fun o => match o with
     | some true => "1" | some false => "0" | none => "-"
   s!"{"".intercalate caps}{if vModelB tl ports stmts false (!·) prim2 a tab then "" else "!"}"
 
